@@ -170,8 +170,14 @@ def leg(pid, tier, seed, verdict, n=None, tag=None, whole=0.12):
             verdict.violation("crash:%s:%s" % (job["cfg"], crash.get("signal") or crash["rc"]), job["id"], {"job": job, "crash": crash},
                               "the crate crashed/hung while running job %s (%s)" % (job["id"], str(crash)[:300]))
             continue
-        if trace["outcome"] != "Done":
-            skipped += 1
+        panics = [e for e in trace["ev"] if e.get("e") == "thread_panic" or (e.get("e") == "ret" and e.get("panic"))]
+        if panics or trace["outcome"] != "Done":
+            # no operation of the alphabet may panic, block forever or run away
+            job2 = dict(job)
+            job2["sched"] = {"kind": "list", "steps": trace["schedule"]}
+            verdict.violation("step:%s:%s" % ("panic" if panics else trace["outcome"], job["cfg"]), job["id"], {"job": job2, "panics": panics[:3]},
+                              "job %s: %s" % (job["id"], ("an operation panicked: %s" % str(panics[0])[:200]) if panics else "the run ends %s" % trace["outcome"]))
+            crashed += 1
             continue
         p = project.flurry_projection(trace, job, consts())
         if p is None:
